@@ -28,17 +28,19 @@ RULE = ("generated geometries x option sets (both APIs, all methods) with a HIST
         "same op file in separate processes under ASLR on/off, MALLOC_PERTURB_ 0/165/255, MALLOC_ARENA_MAX=1, "
         "MALLOC_MMAP_THRESHOLD_ 4096 / 1 GiB, two pre-fragmented dirty heaps: every output line must be identical; "
         "thorough: a subset under valgrind memcheck (undefined-value errors end the run); non-trivial = distinct op line")
-THEOREM_BACKED = ("decode_is_a_function (trivial); expert_encoder_state_irrelevant / encoder_state_irrelevant / "
-                  "expert_reused_eq_fresh / encoder_reused_eq_fresh / decoder_state_irrelevant (API objects as state "
-                  "machines: the output of call n is a function of the setter calls and the geometry / bytes only); "
-                  "encoder_counts_after_success / encoder_counts_history_independent / expert_counts_after_success (the "
-                  "counters after a successful encode, repaired Encoder of /repo 85f04a5; "
-                  "prefix_encoder_counts_depend_on_history = witness for the code before that fix); "
-                  "encoded_stream_trailing_bytes_ignored_seq / _kd, encoded_stream_two_tails_seq / _kd (encoder-produced "
-                  "streams: result independent of appended bytes, consumed = stream length; corollaries of C01); for "
-                  "arbitrary accepted byte strings trailing_bytes_stable_header / _att_descs / _raw_symbols / "
-                  "_tagged_symbols_inside, bit_read_inside_stable, and where it ends: remaining_is_not_stable, "
-                  "bit_read_past_end_not_stable")
+THEOREM_BACKED = ('decode_is_a_function (trivial); expert_encoder_state_irrelevant / encoder_state_irrelevant / '
+                  'expert_reused_eq_fresh / encoder_reused_eq_fresh / decoder_state_irrelevant (API objects as state '
+                  'machines: the output of call n is a function of the setter calls and the geometry / bytes only); '
+                  'encoder_counts_after_success / encoder_counts_history_independent / expert_counts_after_success (the '
+                  'counters after a successful encode, repaired Encoder of /repo 85f04a5; '
+                  'prefix_encoder_counts_depend_on_history = witness for the code before that fix); cited from C01: '
+                  'seq_encoder_scheme_is_function_of_options / encodeGeometry_ignores_selectPrediction (the sequential '
+                  'encoder model derives the prediction scheme from geometry + resolved options alone) and the option-store'
+                  ' laws; encoded_stream_trailing_bytes_ignored_seq / _kd, encoded_stream_two_tails_seq / _kd '
+                  '(encoder-produced streams: result independent of appended bytes, consumed = stream length; corollaries '
+                  'of C01); for arbitrary accepted byte strings trailing_bytes_stable_header / _att_descs / _raw_symbols / '
+                  '_tagged_symbols_inside, bit_read_inside_stable, and where it ends: remaining_is_not_stable, '
+                  'bit_read_past_end_not_stable')
 CORRESPONDENCE_ONLY = ("runtime determinism (uninitialised memory, container order, heap layout) is OBSERVED by "
                        "perturbation, not proved: the property is labelled partial")
 EXPLANATION = ("the logic part is small: decoding is a function by construction of the model; the API state machine "
@@ -234,6 +236,11 @@ def det_line(rng, family):
         if family == "ebtopo" or rng.random() < 0.5:
             toks.append(f"bufhist={rng.randrange(1, 1 << 30)}")
         tags = ("det", "family:" + family, "expert" if expert else "encoder", "mesh" if g.is_mesh else "pc", f"history:{len(hist)}")
+        if not expert and hist and rng.random() < 0.35:
+            # the reused Encoder calls Reset() before the main job: it must then behave like a fresh Encoder that
+            # received the main job's setters only
+            toks.append("reset=1")
+            tags += ("reset-before-main",)
     line = "det " + " ".join(toks) + " -- " + g.to_text()
     for th, gh in hist:
         # an ExpertEncoder is bound to one geometry: its history is a sequence of option changes
